@@ -200,6 +200,11 @@ class AccumulateUpdate(NodeUpdate):
                    text='implies(self.with_state, fst(emitted[0]) == self.state)',
                    note='R1: the state exposed with with_state is the state the node keeps'),
             Clause('C10.metadata_unchanged', ['C10'], text='emitted_md == [metadata]'),
+            Clause('C12.a_state_that_was_emitted_stays_the_stored_state_when_a_consumer_fails', ['C12', 'C16'], when='raise:DownstreamError',
+                   text='self.state == ' + new_state,
+                   note='the element was folded in and the resulting state / value has been handed to the consumers (an earlier '
+                        'sibling may have recorded it as a checkpoint): taking it back would make the pipeline continue from a state '
+                        'nobody can resume from'),
         ] + PASS_THROUGH_PLUMBING + self.standard_clauses() + user_raise_clauses(self) + downstream_raise_clauses(self)
 
 
